@@ -255,6 +255,8 @@ def check(case):
         # slicing such as x[:-1:2] leaves them behind): the input class of the unify_chunks defect listed as len1-axis-zero-size-chunk
         operands = [r] + ([inputs_da[s["input"]]] if isinstance(s.get("input"), int) else [])
         sig["len1_axis_zero_chunk"] = any(n == 1 and len(c) > 1 for o in operands for n, c in zip(o.shape, o.chunks))
+        # an operand has a zero-size chunk on an axis with several chunks, whether given explicitly or left behind by a strided slice
+        sig["zero_chunk_in"] = any(C.known_chunks(o.chunks) and A.has_zero_chunk(o.chunks) for o in operands)
         done.append(s["op"])
         with impl(f"step {k} {s}", **sig), np.errstate(all="ignore"):
             r = step(da, r, s, inputs_da, True)
